@@ -504,6 +504,8 @@ func init() {
 					c.Eval()
 					if !orb.Equal(gotMP, expMP) && !(len(gotMP) == 0 && len(expMP) == 0) {
 						c.Fail("", "clip.MultiPolygon is not the list of non-empty clipped members", map[string]interface{}{"box": box, "multipolygon": model, "got": sv(gotMP), "expected": sv(expMP)})
+					} else if gotMP != nil && !partsIndependent(gotMP) {
+						c.Fail("", "rings of one clip.MultiPolygon result share memory: appending to one ring overwrites another", map[string]interface{}{"box": box, "multipolygon": model, "now": sv(gotMP)})
 					}
 					g := clip.Geometry(b, cloneMP(mp))
 					c.Eval()
